@@ -12,7 +12,7 @@ Definition lossless_value (v : fval) : bool :=
   | VNum (U8 _) | VNum (U16 _) | VNum (U24 _) | VNum (U32 _) | VNum (U64 _) | VNum (U128 _) | VNum (I24 _) => true
   | VNum (I32 _) => false               (* the declared width (1, 2, 4, 8, 16) is not kept *)
   | VIp4 _ | VIp6 _ | VF64 _ | VVec _ => true
-  | VProto d => (proto_to_u8 d =? d)%N  (* 145 (Unknown) goes out as 255 *)
+  | VProto d => (proto_to_u8 d =? d)%N  (* Unknown (bytes 145..254) goes out as 255 *)
   | VStr _ | VMac _ | VDur _ _ => false
   end.
 
